@@ -30,7 +30,7 @@ def field_json(f):
                 data=[Qs(row) for row in arr.tolist()],
                 valid=[bool(v) for v in np.asarray(f.valid).reshape(-1).tolist()],
                 vdims=(list(f.vdims) if f.vdims is not None else None),
-                vmap=[[k, v] for k, v in f.vdim_mapping.items()],
+                vmap=[[k, v] for k, v in f.vdim_mapping.items() if v is not None],
                 unit=f.unit)
 
 
@@ -84,9 +84,10 @@ def cmp_field(name, f, mj, dis, exact=True, rel=2**-40, check_meta=True):
     if got["mesh"]["n"] != mj["mesh"]["n"]:
         dis.append(f"{name}: n impl {got['mesh']['n']} vs model {mj['mesh']['n']}")
         return
+    rscale = max([abs(F(x)) for x in mj["mesh"]["region"]["pmin"] + mj["mesh"]["region"]["pmax"]] + [Fraction(1)])
     for key in ("pmin", "pmax"):
         a, b = got["mesh"]["region"][key], mj["mesh"]["region"][key]
-        if len(a) != len(b) or any((F(x) != F(y)) if exact else abs(F(x) - F(y)) > Fraction(rel) * max(abs(F(y)), 1) for x, y in zip(a, b)):
+        if len(a) != len(b) or any((F(x) != F(y)) if exact else abs(F(x) - F(y)) > Fraction(rel) * rscale for x, y in zip(a, b)):
             dis.append(f"{name}: region {key} impl {a} vs model {b}")
             return
     if check_meta:
